@@ -428,9 +428,9 @@ func exec(spec string) (res engine.Result) {
 		}
 		return
 	}
-	if strings.HasPrefix(spec, "count|") { // development aid: cases per function
+	if strings.HasPrefix(spec, "histogram|") { // development aid: cases per function
 		m := map[string]int{}
-		enumerate(spec[6:], func(sp string) { m[sp[:strings.IndexByte(sp, '|')]]++ })
+		enumerate(spec[10:], func(sp string) { m[sp[:strings.IndexByte(sp, '|')]]++ })
 		var keys []string
 		for k := range m {
 			keys = append(keys, k)
